@@ -723,40 +723,50 @@ theorem fix_next_up (f : MPFixFmt) (x : RF) (hr : f.repr (.fin x) = true) :
   simp [hr, FV.isNan, FV.isInf]
   rfl
 
-/-- what `MPFixedFormat.normalize` computes today -/
-theorem fix_normalize_eq (f : MPFixFmt) (x : RF) :
-    f.normalize (.fin x) = .ok (.fin ⟨x.s, f.expmin, shiftDown x.c (x.exp - f.expmin)⟩) := by
-  unfold MPFixFmt.normalize shiftDown
-  simp only
-  by_cases h1 : x.exp - f.expmin > 0
-  · simp only [h1, if_true]; congr 3; omega
-  · by_cases h2 : x.exp - f.expmin < 0
-    · simp only [h1, h2, if_false, if_true]; congr 3; omega
-    · simp only [h1, h2, if_false]
-      have : x.exp = f.expmin := by omega
-      congr 2
-      cases x; simp_all
+theorem mpfix_repr_fin (f : MPFixFmt) (x : RF) (hr : f.repr (.fin x) = true) :
+    x.isMoreSignificant f.nmin = true := by
+  unfold MPFixFmt.repr at hr
+  split at hr
+  · cases hr
+  · exact hr
 
-theorem fix_normalize_partial (f : MPFixFmt) (x : RF) (h : x.exp = f.expmin ∨ x.c = 0) :
+/-- `MPFixedFormat.normalize`: the significand moved to `expmin`, nothing shifted out -/
+theorem fix_normalize (f : MPFixFmt) (x : RF) (hr : f.repr (.fin x) = true) :
     ∃ y, f.normalize (.fin x) = .ok (.fin y) ∧ same x y ∧ y.exp = f.expmin := by
-  rw [fix_normalize_eq]
-  refine ⟨_, rfl, ⟨?_, rfl⟩, rfl⟩
-  rcases h with h | h
-  · have : shiftDown x.c (x.exp - f.expmin) = x.c := by unfold shiftDown; simp [h]
-    rw [this]; unfold sameValue units mag; simp [h]
-  · have : shiftDown x.c (x.exp - f.expmin) = 0 := by unfold shiftDown; simp [h]
-    rw [this]; unfold sameValue; rw [units_zero h, units_zero rfl]
+  have hms := mpfix_repr_fin f x hr
+  have hdiv : x.exp < f.expmin → x.c % 2 ^ (f.expmin - x.exp).toNat = 0 := by
+    intro h
+    by_cases hc : x.c = 0
+    · simp [hc]
+    · exact fix_repr_div f.nmin x hc hms h
+  refine ⟨⟨x.s, f.expmin, shiftBy x.c (x.exp - f.expmin)⟩, ?_, ⟨?_, rfl⟩, rfl⟩
+  · unfold MPFixFmt.normalize shiftBy
+    simp only [hr, Bool.not_true, Bool.false_eq_true, if_false]
+    by_cases h1 : x.exp - f.expmin > 0
+    · simp only [h1, if_true]; congr 3; omega
+    · by_cases h2 : x.exp - f.expmin < 0
+      · simp only [h1, h2, if_false, if_true]; congr 3; omega
+      · simp only [h1, h2, if_false]
+        have : x.exp = f.expmin := by omega
+        congr 2
+        cases x; simp_all
+  · unfold sameValue
+    exact (units_shiftBy x.s x.exp f.expmin x.c _ (by omega) (by simp only; omega) hdiv).symm
 
-theorem fix_normalize_counterexample :
-    ¬ (∀ (f : MPFixFmt) (x : RF), f.repr (.fin x) = true →
-        ∃ y, f.normalize (.fin x) = .ok (.fin y) ∧ same x y ∧ y.exp = f.expmin) := by
-  intro h
-  obtain ⟨y, h1, ⟨h2, _⟩, _⟩ := h { nmin := -1, negZero := false } ⟨false, 2, 1⟩ (by decide)
-  have : y = ⟨false, 0, 0⟩ := by
-    have e : MPFixFmt.normalize { nmin := -1, negZero := false } (.fin ⟨false, 2, 1⟩) = .ok (.fin ⟨false, 0, 0⟩) := by rfl
-    rw [e] at h1; injection h1 with h1; injection h1 with h1; exact h1.symm
-  subst this
-  revert h2; unfold sameValue units mag; decide
+theorem mpbfix_repr_mp (F : MPBFixFmt) (v : FV) (hr : F.repr v = true) : F.mp.repr v = true := by
+  unfold MPBFixFmt.repr at hr
+  by_cases h : F.mp.repr v = true
+  · exact h
+  · simp [h] at hr
+
+/-- the same through the bounded formats (`MPBFixed`, `Fixed`, `SMFixed`) -/
+theorem mpbfix_normalize (F : MPBFixFmt) (x : RF) (hr : F.repr (.fin x) = true) :
+    ∃ y, F.normalize (.fin x) = .ok (.fin y) ∧ same x y ∧ y.exp = F.nmin + 1 := by
+  obtain ⟨y, h1, h2, h3⟩ := fix_normalize F.mp x (mpbfix_repr_mp F _ hr)
+  refine ⟨y, ?_, h2, h3⟩
+  unfold MPBFixFmt.normalize
+  simp only [hr, Bool.not_true, Bool.false_eq_true, if_false]
+  exact h1
 
 theorem ef_pmax (f : EF) : f.pmax = f.nbits - f.es := rfl
 
